@@ -535,7 +535,193 @@ fn packed_msg(sim: &Sim, plan: &crate::verif::honest::ProofPlan) -> ckb_network:
         .as_bytes()
 }
 
+
+/// Specification -> implementation: the environment events of one behaviour of MC_PeerSyncR (TLC -simulate) are
+/// executed on the real client.  The world has the shape of the model's world (block ids are the same): main
+/// chain 1..7, a fork 8, 9 on block 5 whose tip is heavier, a forged child 10 of block 7, an unmined sibling 11
+/// of block 7, the child 12 of the fork tip.  The client draws its own requests; an honest answer "from tip t"
+/// is what the honest server with that tip answers to the request the client really sent; an answer that fails
+/// check f is a mutant of that class of the honest answer.  Events the real state does not offer (no request
+/// outstanding) are counted and skipped, never forced.  The recorded trace is judged by Trace_PeerSync.
+fn replay_world(rng: &mut StdRng) -> SimChain {
+    use crate::verif::world::WBlock;
+    let p = ChainParams { pow: "dummy".to_owned(), epoch_len: (3, 3), vary_difficulty: false };
+    let mut chain = SimChain::new("dummy", &gen::default_scripts());
+    let main = gen::extend(&mut chain, 0, 6, &p, rng); // ids 1..6 (model 2..7)
+    assert_eq!(main, 6);
+    let f1 = gen::extend(&mut chain, 4, 1, &p, rng); // id 7 (model 8): sibling of model 6
+    assert_eq!(f1, 7);
+    // id 8 (model 9): heavier than the main tip
+    let (epoch, diff) = gen::next_epoch(&chain, f1, &p, rng);
+    let new_epoch = epoch.1 == 0;
+    let f2 = chain.add_block(&WBlock { parent: f1 as i64, diff: if new_epoch { diff * 2 } else { diff }, epoch, pow: true, root: true, txs: vec![] });
+    assert_eq!(f2, 8);
+    // id 9 (model 10): forged child of the main tip with an inflated chain root
+    let claimed = ckb_types::U256::from(1u64 << 20);
+    let forged = chain.forge_child(main, claimed);
+    assert_eq!(forged, 9);
+    // id 10 (model 11): unmined sibling of the main tip
+    let (epoch, diff) = gen::next_epoch(&chain, 5, &p, rng);
+    let um = chain.add_block(&WBlock { parent: 5, diff, epoch, pow: false, root: true, txs: vec![] });
+    assert_eq!(um, 10);
+    let f3 = gen::extend(&mut chain, f2, 1, &p, rng); // id 11 (model 12)
+    assert_eq!(f3, 11);
+    chain
+}
+
+fn replay_scenario(events: &[serde_json::Value], sc: usize, out: Box<dyn std::io::Write>, skipped: &mut u64) -> (Box<dyn std::io::Write>, u64, Vec<String>) {
+    use crate::verif::client::Proto;
+    use crate::verif::mutate::last_state_proof_mutants;
+    use ckb_types::prelude::*;
+    let mut rng = StdRng::seed_from_u64(4242);
+    let chain = replay_world(&mut rng);
+    let cfg = Config { last_n: 2, max_outbound: 2, ..Default::default() };
+    let mut sim: Sim = new_sim(chain, cfg, 2, out, &format!("replay-{}", sc), vec!["peersync"]);
+    let mut env = Env::new(&sim, &[(6, 6), (6, 6)]);
+    sim.reset(json!({"mode": "replay"}));
+    // the last honest proof message delivered per peer (re-delivered as an answer nobody asked for)
+    let mut last_proof: Vec<Option<(ckb_network::bytes::Bytes, serde_json::Value)>> = vec![None, None];
+    for e in events {
+        let k = e["k"].as_str().unwrap_or("");
+        let i = match e["p"].as_str().unwrap_or("") { "p1" => 0usize, "p2" => 1usize, _ => 0usize };
+        let b = e["b"].as_u64().unwrap_or(0) as usize;
+        let x = e["x"].as_str().unwrap_or("");
+        match k {
+            "Connect" => {
+                if !env.peers[i].connected { env.connect(&mut sim, i) } else { *skipped += 1 }
+            }
+            "Disconnect" => {
+                if env.peers[i].connected { env.disconnect(&mut sim, i) } else { *skipped += 1 }
+            }
+            "Advance" => sim.advance(b as u64),
+            "Refresh" => {
+                env.refresh(&mut sim);
+                // the network layer closes the sessions the client asked to close
+                let dropped = sim.last_drops.clone();
+                for j in 0..2 {
+                    if dropped.contains(&env.peers[j].idx) && env.peers[j].connected {
+                        env.disconnect(&mut sim, j);
+                    }
+                }
+            }
+            "LastState" => {
+                if env.peers[i].connected && b >= 1 && b <= sim.chain.blocks.len() {
+                    env.send_last_state_of(&mut sim, i, b - 1);
+                    env.enforce_bans(&mut sim);
+                } else {
+                    *skipped += 1
+                }
+            }
+            "Proof" => {
+                if !env.peers[i].connected {
+                    *skipped += 1;
+                    continue;
+                }
+                let p = env.peers[i].idx;
+                if x == "honest" {
+                    env.peers[i].server.tip = b - 1;
+                    // (remember the answer: the same bytes may come again later)
+                    let req = sim.inbox.iter().find(|s| s.peer == p).and_then(crate::verif::sim::as_get_last_state_proof);
+                    if let Some(req) = req {
+                        if let Ok(Some(plan)) = env.peers[i].server.plan_last_state_proof(&sim.chain, &req) {
+                            let msg = packed_msg(&sim, &plan);
+                            let args = Env::plan_args(&sim, p, &plan, "honest", crate::verif::env::true_attrs());
+                            last_proof[i] = Some((msg, args));
+                        }
+                    }
+                    if !env.answer_proof(&mut sim, i) { *skipped += 1 }
+                    env.enforce_bans(&mut sim);
+                } else if x == "unsolicited" {
+                    // an earlier (then honest) answer again, while the client has no request outstanding
+                    let no_req = sim.client().peers.get_state(&p).map(|st| st.get_prove_request().is_none()).unwrap_or(false);
+                    match (&last_proof[i], no_req) {
+                        (Some((msg, args)), true) => {
+                            let (msg, args) = (msg.clone(), args.clone());
+                            sim.step("Proof", args, |c| c.deliver(Proto::Lc, p, msg));
+                            env.enforce_bans(&mut sim);
+                        }
+                        _ => *skipped += 1,
+                    }
+                } else {
+                    // a mutant of class x of the honest answer to the outstanding request
+                    match sim.take_request(p, crate::verif::sim::as_get_last_state_proof) {
+                        Some(req) => {
+                            let last = sim.chain.id_of(&req.last_hash());
+                            let mut server = env.peers[i].server.clone();
+                            if let Some(l) = last { server.tip = l }
+                            match server.plan_last_state_proof(&sim.chain, &req) {
+                                Ok(Some(plan)) => {
+                                    let muts = last_state_proof_mutants(&sim.chain, &req, &plan, None);
+                                    let cand: Vec<_> = muts.into_iter().filter(|m| m.attr == x).collect();
+                                    if cand.is_empty() {
+                                        *skipped += 1;
+                                    } else {
+                                        let m = &cand[(sc + b) % cand.len()];
+                                        let mut attrs = json!({"match": "ok", "root": "ok", "pow": "ok", "cont": "ok", "mmr": "ok", "tau": "ok", "td": "ok"});
+                                        attrs[m.attr] = json!("bad");
+                                        let mut args = Env::plan_args(&sim, p, &plan, &m.label, attrs);
+                                        args["reorg"] = json!([]);
+                                        args["samples"] = json!([]);
+                                        args["lastn"] = json!([]);
+                                        let bytes = m.msg.as_bytes();
+                                        sim.step("Proof", args, |c| c.deliver(Proto::Lc, p, bytes));
+                                        env.enforce_bans(&mut sim);
+                                    }
+                                }
+                                _ => *skipped += 1,
+                            }
+                        }
+                        None => *skipped += 1,
+                    }
+                }
+            }
+            "Restart" => env.restart(&mut sim),
+            _ => *skipped += 1,
+        }
+        if !sim.panics.is_empty() {
+            break;
+        }
+    }
+    let lines = sim.lines;
+    let panics = sim.panics.clone();
+    let out = std::mem::replace(&mut sim.out, Box::new(std::io::sink()));
+    (out, lines, panics)
+}
+
+/// mode=replay file=<REPLAY lines of tlc -simulate on MC_PeerSyncR, one JSON array per line>
+fn run_replay(kv: &HashMap<String, String>) -> i32 {
+    let path = arg_str(kv, "out", "/dev/stdout");
+    let file = arg_str(kv, "file", "");
+    let n = arg_u64(kv, "n", 100) as usize;
+    let seed = arg_u64(kv, "seed", 1) as usize;
+    let text = std::fs::read_to_string(&file).expect("read scenario file");
+    let lines: Vec<&str> = text.lines().filter(|l| l.starts_with('[')).collect();
+    let mut out: Box<dyn std::io::Write> = Box::new(BufWriter::new(File::create(&path).expect("open out")));
+    let (mut total, mut skipped, mut done) = (0u64, 0u64, 0usize);
+    let mut panics = Vec::new();
+    // a seeded slice of the scenario file
+    let m = lines.len().max(1);
+    for k in 0..n.min(lines.len()) {
+        let idx = (seed * 7919 + k * (m / n.max(1)).max(1)) % m;
+        let events: Vec<serde_json::Value> = match serde_json::from_str(lines[idx]) {
+            Ok(v) => v,
+            Err(_) => continue,
+        };
+        let (o, l, p) = replay_scenario(&events, idx, out, &mut skipped);
+        out = o;
+        total += l;
+        done += 1;
+        panics.extend(p);
+    }
+    out.flush().ok();
+    eprintln!("peersync mode=replay scenarios={} lines={} skipped_events={} panics={}", done, total, skipped, panics.len());
+    0
+}
+
 pub fn run(kv: &HashMap<String, String>) -> i32 {
+    if arg_str(kv, "mode", "honest") == "replay" {
+        return run_replay(kv);
+    }
     let seed = arg_u64(kv, "seed", 1);
     let n = arg_u64(kv, "n", 5) as usize;
     let mode = arg_str(kv, "mode", "honest");
